@@ -94,3 +94,53 @@ def coupling_matrix(scns):
                 missing.append((a, b, sorted(shared)))
     return {"pairs_sharing_a_field": len(pairs), "pairs_covered_together": sum(1 for v in pairs.values() if v),
             "pairs_not_together": ["%s+%s" % (a, b) for a, b, _ in missing][:40]}
+
+S6 = Scenario(
+    "S6-instances-from-zero", seeds.seed_c02_zero,
+    ["definition.create_port", "definition.add_port", "definition.remove_port", "port.create_pin",
+     "port.add_pin", "port.remove_pin", "new.instance", "definition.create_child",
+     "instance.reference=", "instance.reference=None", "definition.remove_child",
+     "netlist.top_instance=", "netlist.top_instance=None"],
+    limits={"positions": (None,), "names": (None,)},
+    depth={"quick": 3, "thorough": 4},
+    note="instances created after / before the ports they mirror")
+
+S7 = Scenario(
+    "S7-child-and-top-of-one-definition", seeds.seed_c02_mix,
+    ["definition.create_port", "definition.remove_port", "definition.remove_ports_from",
+     "port.create_pin", "port.create_pins", "port.remove_pin", "port.remove_pins_from",
+     "instance.reference=", "instance.del_reference", "definition.remove_child",
+     "netlist.top_instance=", "netlist.top_instance=None", "wire.connect_pin", "wire.disconnect_pin"],
+    limits={"positions": (None,), "names": (None,), "bulk_max": 2, "proxy_pairs": _valid_proxies_plus_one},
+    depth={"quick": 2, "thorough": 3},
+    note="a child and a top instance of the same definition; edits while connected")
+
+INSTANCE_SCENARIOS = [S2, S4, S5, S6, S7]
+
+# ---------------------------------------------------------------- naming scopes (C10, C14)
+_SCOPE = {
+    # kind: (parent kind, create, add, remove, bulk remove)
+    "L": ("N", "netlist.create_library", "netlist.add_library", "netlist.remove_library", "netlist.remove_libraries_from"),
+    "D": ("L", "library.create_definition", "library.add_definition", "library.remove_definition", "library.remove_definitions_from"),
+    "P": ("D", "definition.create_port", "definition.add_port", "definition.remove_port", "definition.remove_ports_from"),
+    "C": ("D", "definition.create_cable", "definition.add_cable", "definition.remove_cable", "definition.remove_cables_from"),
+    "X": ("D", "definition.create_child.noref", "definition.add_child", "definition.remove_child", "definition.remove_children_from"),
+}
+_NAMING = {}
+
+
+def naming_scenarios(with_clone=True):
+    if not _NAMING:
+        for policy in ("DEFAULT", "EDIF"):
+            for kind, (pk, create, add, remove, bulk) in _SCOPE.items():
+                name = "N-%s-%s" % (kind, policy)
+                opsl = [create, add, remove, bulk, "element.name=", "element.del_name",
+                        "element.setitem", "element.delitem", "element.pop", "clone"]
+                _NAMING[name] = Scenario(
+                    name, seeds.seed_names(kind), opsl,
+                    limits={"positions": (None,), "names": (None, "a", "A", "b"), "counts": (None,),
+                            "keys": (".NAME", "EDIF.identifier"), "elem_kinds": kind, "clone_kinds": pk,
+                            "bulk_max": 2, "empty_bulk": False},
+                    depth={"quick": 2, "thorough": 3}, policy=policy,
+                    note="naming scope %s under the %s policy" % (kind, policy))
+    return list(_NAMING.values())
